@@ -40,10 +40,12 @@ type State struct {
 	ghosts map[string]Val
 	// specHeaps is set while the body of a spec function is evaluated: heap reads become parameters
 	specHeaps *[]heapParam
+	// anchor: under opt atomic=lock, the state at the last lock acquisition on this path (what old() means)
+	anchor *State
 }
 
 func (s *State) clone() *State {
-	n := &State{pc: s.pc, dead: s.dead, specHeaps: s.specHeaps, vars: make(map[types.Object]Val, len(s.vars)), heaps: make(map[string]Term, len(s.heaps)), ghosts: make(map[string]Val, len(s.ghosts))}
+	n := &State{pc: s.pc, dead: s.dead, specHeaps: s.specHeaps, anchor: s.anchor, vars: make(map[types.Object]Val, len(s.vars)), heaps: make(map[string]Term, len(s.heaps)), ghosts: make(map[string]Val, len(s.ghosts))}
 	for k, v := range s.vars {
 		n.vars[k] = v
 	}
@@ -299,6 +301,9 @@ func unionOrig(a, b map[string]bool) map[string]bool {
 
 func (e *Exec) merge2(a, b *State) *State {
 	n := &State{vars: map[types.Object]Val{}, heaps: map[string]Term{}, ghosts: map[string]Val{}}
+	if a.anchor == b.anchor {
+		n.anchor = a.anchor
+	}
 	c := a.pc // a.pc and b.pc are exclusive; under (a.pc or b.pc), a.pc decides
 	for k, va := range a.vars {
 		if vb, ok := b.vars[k]; ok {
